@@ -402,8 +402,10 @@ def gen_ops(rng, cfg):
 # execution
 
 
+_IMPORT_RE = re.compile(r'^[ \t]*import[ \t]+"([^"\n]*)"', re.M)
 _CLI_MSG_RE = re.compile(r"^(.+?):(\d+):(\d+): (error|warning|note): ")
-_ANON_RE = re.compile(r"(emboss_reserved_anonymous_field_|EmbossReservedAnonymousField)(\d+)")
+# reserved anonymous identifiers, whatever their exact spelling: a word containing "anonymous" and its number
+_ANON_RE = re.compile(r"([A-Za-z_]*[Aa]nonymous[A-Za-z_]*?)(\d+)")
 
 
 def renumber_anonymous(text):
@@ -726,6 +728,20 @@ class Farm:
                 if not m["message"].strip():
                     self.fail("C16", "empty_message", ["lib"], {"message": m}, op_index)
 
+    def _has_unresolved_import(self, op):
+        texts = self._resolved_texts(op["dirs"])
+        todo, seen = [op["entry"]], set()
+        while todo:
+            name = todo.pop()
+            if name in seen:
+                continue
+            seen.add(name)
+            if name not in texts:
+                return True
+            for m in _IMPORT_RE.finditer(texts[name]):
+                todo.append(m.group(1))
+        return False
+
     def canonical(self, op, family):
         key = core.digest_of([self._job_key(op), family, op["dirs"] if family == "cli" else None])
         # directory order is part of the key only when it can legitimately matter
@@ -761,8 +777,9 @@ class Farm:
                 w.close()
         res["oracle_warm"] = oracle_warm
         self.count("canonical_runs")
-        blob = json.dumps([res.get("stderr"), res.get("rendered_plain")])
-        res["dir_sensitive"] = "import path" in blob or "Unable to read" in blob
+        # Diagnostics about a file that cannot be found list the directories tried, in the order given,
+        # by design; whether a job has such a file is decided from the tree, never from message wording.
+        res["dir_sensitive"] = self._has_unresolved_import(op)
         self.canon[key if res["dir_sensitive"] else base] = res
         return res
 
@@ -930,7 +947,7 @@ class Farm:
         blob = (res.get("stderr") or "") + (res.get("rendered_plain") or "")
         accepted = (res.get("header") is not None) if res["family"] == "cli" else bool(res.get("accepted"))
         self.count("outcome.accepted" if accepted else ("outcome.crashed" if res.get("exc") else "outcome.rejected"))
-        if "Unable to read file" in blob:
+        if self._has_unresolved_import(op):
             self.count("probe.import_missing_or_unreadable")
         if blob.count("error:") >= 2:
             self.count("probe.two_or_more_error_groups")
